@@ -536,6 +536,9 @@ fn common_access(w: &mut World, o: u32, width: u8, write: Option<u64>) -> u64 {
                         v.q_driver.clear();
                         v.q_device.clear();
                         v.drv_feat = [0, 0];
+                        // a reset returns every register to its initial value
+                        v.queue_select = 0;
+                        v.written_since_select.clear();
                     }
                     w.t_set_status(s);
                 }
